@@ -58,6 +58,9 @@ THEOREMS = {
         ("HH.C05.streaming", "∀ hasher (any back end, packet invariant) chunks width: foldl append then finalize = append (flatten) then finalize"),
         ("HH.C05.streaming2", "two chunkings of the same data give the same result"),
         ("HH.C05.streaming_new", "instance for hashers built from a key"),
+        ("HH.C05.split_anywhere", "one cut at any position n (0, inside a packet, on a boundary, beyond the end) = one append"),
+        ("HH.C05.empty_chunks_irrelevant", "deleting all empty chunks from any history changes no result"),
+        ("HH.C05.bytewise", "byte-at-a-time feeding = one append"),
         ("HH.C05.empty_append", "an empty append changes no observable"),
         ("HH.C05.entry_points_agree", "append / Hasher::write / io::Write::write are the same state transformer of the machine"),
     ]),
